@@ -56,6 +56,16 @@ void group_checks(const std::string & tn)
       c.judge("g*Id=g", ref::relerr1(R::template matrix<L>(coeffsL(p).data()), M), T);
       c.judge("Id*g=g", ref::relerr1(R::template matrix<L>(coeffsL(q).data()), M), T);
     }
+    {
+      // composition with itself, also in place (the right operand aliases the left one)
+      const auto MM = ref::mul(M, M);
+      const L sc2   = ref::mul(ref::cabs(M), ref::cabs(M)).maxabs();
+      const G p     = g * g;
+      G q           = g;
+      q *= q;
+      c.judge("g*g=M*M", ref::relerr_scaled(R::template matrix<L>(coeffsL(p).data()), MM, sc2), T);
+      c.judge("g*=g (aliased)=M*M", ref::relerr_scaled(R::template matrix<L>(coeffsL(q).data()), MM, sc2), T);
+    }
     G h;
     h.setIdentity();
     c.judge("setIdentity", ref::relerr1(R::template matrix<L>(coeffsL(h).data()), I), 0.0);
